@@ -481,8 +481,36 @@ func c15_5(c *core.Ctx, p *core.Prog) {
 			n++
 			with := false
 			core.BackSlice(cl.Call.Args[1], func(v ssa.Value) bool {
-				if w, ok := v.(*ssa.Call); ok && core.IsPkgFunc(core.CalleeObj(w), arrowIPC, "WithAllocator") && poolF != nil && isFieldLoad(core.Strip(w.Call.Args[0]), poolF) {
-					with = true
+				if w, ok := v.(*ssa.Call); ok && core.IsPkgFunc(core.CalleeObj(w), arrowIPC, "WithAllocator") && poolF != nil {
+					arg := core.Strip(w.Call.Args[0])
+					if isFieldLoad(arg, poolF) {
+						with = true
+					}
+					// the writer may be created in a helper that is handed the allocator: every call site passes the producer's
+					if prm, ok := arg.(*ssa.Parameter); ok {
+						idx := -1
+						for k, q := range fn.Params {
+							if q == prm {
+								idx = k
+							}
+						}
+						sites, all := 0, true
+						for _, g := range arrowRecordFuncs(p) {
+							for _, host := range core.WithClosures(g) {
+								core.EachCall(host, func(ci ssa.CallInstruction) {
+									if ci.Common().StaticCallee() == fn && idx >= 0 && idx < len(ci.Common().Args) {
+										sites++
+										if !isFieldLoad(core.Strip(ci.Common().Args[idx]), poolF) {
+											all = false
+										}
+									}
+								})
+							}
+						}
+						if sites > 0 && all {
+							with = true
+						}
+					}
 				}
 				return true
 			})
